@@ -551,12 +551,25 @@ pre_type(struct emu *emu)
 		return -1;
 	}
 
+	/* The jumbo data holds the type id followed by the label, which must
+	 * be terminated inside the event (the payload begins with the 4 bytes
+	 * of the jumbo size) */
+	if (emu->ev->payload_size < 4 + 4 + 1) {
+		err("payload too small for a task type");
+		return -1;
+	}
+
 	const uint8_t *data = &emu->ev->payload->jumbo.data[0];
 	uint32_t typeid;
 	memcpy(&typeid, data, 4); /* May be unaligned */
 	data += 4;
 
 	const char *label = (const char *) data;
+
+	if (memchr(label, '\0', emu->ev->payload_size - 8) == NULL) {
+		err("task type label is not terminated");
+		return -1;
+	}
 
 	struct nosv_proc *proc = EXT(emu->proc, 'V');
 	struct task_info *info = &proc->task_info;
